@@ -666,6 +666,14 @@ M("r22-nullable-skip-only-at-first-sight", ["C05", "C01"], "break",
     "\t      if (!symb->term_p)\n\t\tfor (rule = symb->u.nonterm.rules;\n\t\t     rule != NULL; rule = rule->lhs_next)\n\t\t  set_new_add_initial_sit (sit_create (rule, 0, 0));\n\t      if (symb->empty_p && i >= new_core->n_all_dists)\n\t\tset_new_add_initial_sit (sit_create (sit->rule, sit->pos + 1, 0));\n\t    }\n\t  core_symb_vect_new_add_transition_el (core_symb_vect, i);")],
   "nullable-skip-class")
 
+M("r4b-local-cursor-commits-behind-nul", ["C11", "C12"], "break",
+  [("sgramm.y", "\t      while ((c = *curr_ch++) != '\\0' && isdigit (c))\n\t\tyylval.num = yylval.num * 10 + (c - '0');\n\t      curr_ch--;",
+    "\t      {\n\t\tconst char *next = curr_ch;\n\n\t\tdo\n\t\t  {\n\t\t    c = *next++;\n\t\t    if (isdigit (c))\n\t\t      yylval.num = yylval.num * 10 + (c - '0');\n\t\t  }\n\t\twhile (isdigit (c));\n\t\tcurr_ch = next;\n\t      }")],
+  "yaep_yylex/")
+M("r4b-local-cursor-peek-benign", ["C11", "C12"], "benign",
+  [("sgramm.y", "\t      while ((c = *curr_ch++) != '\\0' && isdigit (c))\n\t\tyylval.num = yylval.num * 10 + (c - '0');\n\t      curr_ch--;",
+    "\t      {\n\t\tconst char *next = curr_ch;\n\n\t\twhile (*next != '\\0' && isdigit (*next))\n\t\t  {\n\t\t    c = *next;\n\t\t    next += 1;\n\t\t    yylval.num = 10 * yylval.num + (c - '0');\n\t\t  }\n\t\tcurr_ch = next;\n\t      }")])
+
 # ---- R8 / R2f (C16, C19) ----------------------------------------------------------------------------
 M("r8-revert-F14", ["C19", "C16"], "break", [("hashtab.cpp", "		  entry_ptr = first_deleted_entry_ptr;\n		  *entry_ptr = EMPTY_ENTRY;", "		  entry_ptr = first_deleted_entry_ptr;\n		  *entry_ptr = DELETED_ENTRY;")], "find_hash_table_entry~")
 M("r2f-revert-F15", ["C19", "C16"], "break", [("hashtab.cpp", "  ::operator delete (new_htab);", "  yaep_free (new_htab->alloc, new_htab);")], "expand_hash_table/new")
